@@ -203,7 +203,9 @@ func logqlSites() {
 				}
 				return Quoted{Text: out.Text, Value: perByteReplace(s)}, true
 			}},
-			Exec:     func(e *Env, text string) ([]string, error) { return e.logqlRange(tmpl(`{a="b"} | regexp §`, text), false) },
+			Exec: func(e *Env, text string) ([]string, error) {
+				return e.logqlRange(tmpl(`{a="b"} | regexp §`, text), false)
+			},
 			Variants: regexpBodyVariants})
 
 		// drop values
@@ -386,7 +388,9 @@ func labelSites() {
 			return e.labelValues(text, []string{`{a="b"}`, `{c=~"d"}`}, false)
 		}})
 	add(Site{ID: "labels/prom_values_name", Group: "label_values_url_name", Lang: "url", Quote: qPlain,
-		Exec: func(e *Env, text string) ([]string, error) { return e.promLabelValues(text, []string{`m{a="b"}`}, false) }})
+		Exec: func(e *Env, text string) ([]string, error) {
+			return e.promLabelValues(text, []string{`m{a="b"}`}, false)
+		}})
 
 	ops := []struct{ op, name string }{{"=", "eq"}, {"!=", "neq"}, {"=~", "re"}, {"!~", "nre"}}
 	for _, q := range strForms {
@@ -408,9 +412,13 @@ func labelSites() {
 	}
 	for _, q := range identForms(reLogQLLabel, "") {
 		add(Site{ID: "labels/series_match/label_name/" + q.Name, Group: "label_match_param_name", Lang: "logql", Quote: q,
-			Exec: func(e *Env, text string) ([]string, error) { return e.series([]string{tmpl(`{§="v"}`, text)}, 1, false) }})
+			Exec: func(e *Env, text string) ([]string, error) {
+				return e.series([]string{tmpl(`{§="v"}`, text)}, 1, false)
+			}})
 		add(Site{ID: "labels/series_match/metric_name/" + q.Name, Group: "label_match_param_name", Lang: "logql", Quote: q,
-			Exec: func(e *Env, text string) ([]string, error) { return e.series([]string{tmpl(`§{a="v"}`, text)}, 2, false) }})
+			Exec: func(e *Env, text string) ([]string, error) {
+				return e.series([]string{tmpl(`§{a="v"}`, text)}, 2, false)
+			}})
 	}
 	// Prometheus label values: match[] is PromQL, converted to a LogQL selector through labels.Matcher.String()
 	for _, q := range []QuoteFn{qDQGo, qDQGoRaw, qSQGo, qBTRaw} {
@@ -508,7 +516,7 @@ func tempoSites() {
 		cl := map[bool]string{false: "single", true: "cluster"}[cluster]
 		add(Site{ID: "tempo/values_v1_tag/" + cl, Group: "tempo_tag_values_url_name", Lang: "url",
 			Quote: QuoteFn{Name: "plain", F: func(s string) (Quoted, bool) { return Quoted{Text: s, Value: tempoV1TagName(s)}, true }},
-			Exec: func(e *Env, text string) ([]string, error) { return e.tempoValues(text, cluster) }})
+			Exec:  func(e *Env, text string) ([]string, error) { return e.tempoValues(text, cluster) }})
 	}
 	for _, p := range []string{"span.", ".", "resource."} {
 		p := p
@@ -663,7 +671,9 @@ func profSites() {
 	add(Site{ID: "prof/label_values_name/no_selector", Group: "prof_label_name_param", Lang: "proto", Quote: qPlain,
 		Exec: func(e *Env, text string) ([]string, error) { return e.profCall("label_values_noscript", true, text) }})
 	add(Site{ID: "prof/series_label_names", Group: "prof_label_name_param", Lang: "proto", Quote: qPlain,
-		Exec: func(e *Env, text string) ([]string, error) { return e.profCall("series2_labels", false, `{k="v"}`, text) }})
+		Exec: func(e *Env, text string) ([]string, error) {
+			return e.profCall("series2_labels", false, `{k="v"}`, text)
+		}})
 	add(Site{ID: "prof/select_series_group_by", Group: "prof_label_name_param", Lang: "proto", Quote: qPlain,
 		Exec: func(e *Env, text string) ([]string, error) {
 			return e.profCall("select_series_avg_groupby", false, `{k="v"}`, benignType, text)
